@@ -60,7 +60,11 @@ impl Future for AsyncDerivedReadyFuture {
         let waker = cx.waker();
         self.source.track();
         if self.loading.load(Ordering::Relaxed) {
+            #[cfg(leptos_verif)]
+            crate::verif_hooks::yield_point("ready:loaded");
             self.wakers.write().or_poisoned().push(waker.clone());
+            #[cfg(leptos_verif)]
+            crate::verif_hooks::yield_point("ready:pushed");
             Poll::Pending
         } else {
             Poll::Ready(())
@@ -139,7 +143,11 @@ where
         pin_mut!(value);
         match (self.loading.load(Ordering::Relaxed), value.poll(cx)) {
             (true, _) => {
+                #[cfg(leptos_verif)]
+                crate::verif_hooks::yield_point("await:loaded");
                 self.wakers.write().or_poisoned().push(waker.clone());
+                #[cfg(leptos_verif)]
+                crate::verif_hooks::yield_point("await:pushed");
                 Poll::Pending
             }
             (_, Poll::Pending) => Poll::Pending,
@@ -205,7 +213,11 @@ where
         pin_mut!(value);
         match (self.loading.load(Ordering::Relaxed), value.poll(cx)) {
             (true, _) => {
+                #[cfg(leptos_verif)]
+                crate::verif_hooks::yield_point("await_ref:loaded");
                 self.wakers.write().or_poisoned().push(waker.clone());
+                #[cfg(leptos_verif)]
+                crate::verif_hooks::yield_point("await_ref:pushed");
                 Poll::Pending
             }
             (_, Poll::Pending) => Poll::Pending,
